@@ -42,6 +42,7 @@ class CBus:
         self._ensure_pump()
 
     def produce(self, topic, value):
+        self.events.append(("produce", topic, value))
         self.log[topic].append(value)
         self._ensure_pump()
 
@@ -72,6 +73,7 @@ class CBus:
 
     async def _run(self, cons, msg, topic=None):
         try:
+            self.events.append(("deliver", topic, msg))      # the moment the handler starts (handlers start in the order of delivery)
             await cons.callback(msg)
         except asyncio.CancelledError:
             raise
@@ -103,7 +105,6 @@ class CBus:
             if self.per_topic:
                 c.busy_topics.add(t)
             self.delivered += 1
-            self.events.append(("deliver", t, msg))
             asyncio.get_event_loop().create_task(self._run(c, msg, t))
             await asyncio.sleep(0)
 
